@@ -137,6 +137,16 @@ Section TableLemmas.
       assert (enc x = []) as -> by (apply lenN_0; rewrite enc_len; exact Ez).
       rewrite Ez. reflexivity.
   Qed.
+  Lemma table_data_some s es j x :
+    Inv s -> contents s = concat (map enc es) -> nth_optN es j = Some x -> 0 < esz ->
+    exists b, s_data s = Some b.
+  Proof.
+    intros HI HC Hn Hp.
+    pose proof (lenN_contents s HI) as HL. rewrite HC, lenN_concat_enc in HL.
+    pose proof (nth_optN_lt _ _ _ Hn) as Hj.
+    destruct HI as (_ & _ & HD). destruct (s_data s) as [b|]; [eauto|].
+    destruct HD as [H0 _]. nia.
+  Qed.
 End TableLemmas.
 
 (* ---- building a table by successive append_data calls ---- *)
